@@ -103,6 +103,14 @@ fn c17_hash_pinned_len1_4_8() {
     same_as_pinned::<8>();
 }
 
+/// the 8-byte case alone (the common key size): separate so that a slow run on one length cannot hide the others
+#[kani::proof]
+#[kani::unwind(4)]
+#[kani::stub(crate::filter::ahash::operations::folded_multiply, mix_stub)]
+fn c17_hash_pinned_len8() {
+    same_as_pinned::<8>();
+}
+
 #[kani::proof]
 #[kani::unwind(4)]
 #[kani::stub(crate::filter::ahash::operations::folded_multiply, mix_stub)]
